@@ -52,7 +52,32 @@ def envs(fx, tier="thorough"):
     rank2 = [(s % 2) for s in range(1, n + 1)]
     util2 = [Fraction(1 + (s * 7) % 3, 1 + (s % 2)) for s in range(1, n + 1)]
     e2 = dict(sel=sel2, rank=rank2, util=util2, rng=[Fraction(1, 2)] * 4)
-    return [e2] if tier == "quick" else [e1, e2]
+    out = [e2] if tier == "quick" else [e1, e2]
+    if any(r["strat"] in ("Utilitarian", "Random") for r in fl.tab):
+        # utility / rank / generator-output patterns: ties, zeros (never a whole top rank), ranks, outputs on and next to
+        # interval boundaries of the cumulative walk
+        import random as _r
+        rnd = _r.Random(7)
+        vals = [Fraction(0), Fraction(1, 2), Fraction(1), Fraction(2), Fraction(3)]
+        rs = [Fraction(0), Fraction(1, 4), Fraction(1, 2), Fraction(3, 4), Fraction(99, 100), Fraction(1, 3), Fraction(2, 3)]
+        for i in range(4 if tier == "quick" else 14):
+            util = [rnd.choice(vals) for _ in range(n)]
+            rank = [rnd.choice([0, 0, 1, 2]) for _ in range(n)]
+            for s in range(1, n + 1):
+                st = fl.st(s)
+                if st["kind"] != "S" or not st["headed"]:
+                    util[s - 1] = max(util[s - 1], Fraction(1, 2))          # regions always weigh something
+            for s in range(1, n + 1):
+                st = fl.st(s)
+                if st["strat"] in ("Utilitarian", "Random"):
+                    kids = st["kids"]
+                    top = max(rank[k - 1] for k in kids)
+                    tops = [k for k in kids if rank[k - 1] == top]
+                    if all(util[k - 1] == 0 for k in tops):
+                        util[tops[-1] - 1] = Fraction(1)
+            r = rs[i % len(rs)]
+            out.append(dict(sel=sel2, rank=rank, util=util, rng=[r] * 4))
+    return out
 
 
 def tla_env(e):
